@@ -13,6 +13,26 @@ CLAIMS = {
         "text": "Retry budget, same number/payload, retransmit flag, clamped timeout, failed-state gate, single upward failure report and bookkeeping of _send_data_frame proved over all await outcomes (ACK, NAK, timeout, failure, close, cancellation) with arbitrary interference at every await; helper callbacks proved against the same class invariant; guarantee side (who may write the fields the sender relies on) checked over the live class.",
         "note": "Assumed: asyncio.timeout fires after exactly t, Semaphore admits TX_K holders, Future semantics; peer RST frames also clear the failed state (outside the quantifier); ghost time bound argued from the per-attempt timeout clause, floats as reals.",
     },
+    "C06": {
+        "text": "ProtocolHandler.command, __call__, _get_command_priority and EZSP.handle_callback proved for every command table (the table is symbolic, so all eleven versions at once), every frame and every interleaving at awaits: the request is registered under its own sequence number before it is handed to the link, the counter advances by one mod 256, only a frame with the registered sequence and id completes a call, everything else goes to the callbacks exactly once, the send slot is requested with the command's priority class and released on every exit.",
+        "note": "Assumed: zigpy PriorityDynamicBoundedSemaphore (one holder, priority then FIFO), asyncio.timeout/Future, deserialize outcome shape (proved as part of C07). Header reader / frame builder enter through contracts proved in C07. Stale _awaiting entry after a timed-out command is discussed in DESIGN 5 (F11).",
+    },
+    "C07": {
+        "text": "Header writers and readers of the three layouts proved against UG100 for all sequence numbers and ids, their round trip as a lemma over the two contracts; serialize_dict / deserialize_dict proved against the declared-order specification for every schema length occurring in the live tables (positional, keyword and reversed-keyword forms) over an abstract per-type codec, round trip as a lemma; table obligations evaluated exhaustively on the eleven live tables (ids unique, ids fit the header field, every schema entry is a wire type, greedy types only last in responses, reader/writer resolution by MRO, COMMANDS_BY_ID inverse).",
+        "note": "ASSUMED and only validated by a bounded stand-in (labelled bounded in evidence): per-type codec of zigpy.types / bellows.types, T.deserialize(T(v).serialize() + r) == (v, r). zigpy FixedIntType little-endian codec assumed.",
+    },
+    "C08": {
+        "text": "EZSP.frame_received never raises and hands the frame to the handler at most once; ProtocolHandler.__call__ proved for every table and frame: raises only Exception subclasses, touches only the entry registered under the frame's own sequence byte, completes a future only on matching id with the decoded values, invokes the callback only for a known frame that decoded fully and answers no pending call; the three header readers refuse truncated headers.",
+        "note": "Payload decoding per type is the assumed codec of C07; 'commands issued afterwards still complete' is carried by the frame condition (nothing but the addressed entry changes).",
+    },
+    "C10": {
+        "text": "Every callback of the failure chain proved from an arbitrary invariant-satisfying state: ERROR frame / retry exhaustion -> one upward reset_received; Gateway.reset_received(non-software) -> one enter_failed_state and no waiter completed; connection_lost / eof -> one application.connection_lost with no exception escaping (none for a deliberate close); EZSP.enter_failed_state with an application callback -> closed, then exactly one controller-reset request; stopped layer refuses commands with no effect; closed transport writes nothing.",
+        "note": "The bound for commands still queued at the semaphore is argued (DESIGN 4), not mechanised; per-command bound follows from the command timeout clause (C06) and the retry budget (C05). zigpy application side is external.",
+    },
+    "C11": {
+        "text": "Gateway.reset, wait_for_startup_reset, reset_received (all 256 codes), connection_lost, AshProtocol.send_reset and rstack_frame_received proved with interference at every await: one CANCEL-prefixed RST unless a reset is in progress, completion only through the waiter future (completed only by a software-reset RSTACK), TimeoutError after RESET_TIMEOUT, no pending or registered waiter left behind on any exit, counters zero after RSTACK, waiters released on connection loss from every future state.",
+        "note": "Assumed: asyncio.timeout cancels the awaited future, done-callbacks run on the next loop iteration. F4 (InvalidStateError in connection_lost) was found here and fixed in /repo.",
+    },
     "C18": {
         "text": "Every obligation generated from the current source of sl_Status.from_ember_status (with the live SL_STATUS_MAP as data) is discharged by z3 for all values of each status family, no bound.",
         "note": "Trusts the PyVC value model (enum identity/equality, dict lookup by (type, value) key) and z3; logging calls are dropped; decorators other than classmethod make the function outside reach.",
